@@ -680,6 +680,24 @@ def r05_5(ctx):
                         if v[0] == 'bin' and v[1] == 'Add' and v[2][0] == 'havoc' and v[3] == ('const', 1):
                             inc = True
             shape = shape and inc
+            if good_op and not shape:
+                # recognised-but-wrong forms are violations; a form the rule does not follow (a count-down, a fold, ...) is undecided
+                wrong = None
+                for p in explore(f, max_visits=1, havoc=True):
+                    if p.end != 'return':
+                        continue
+                    rv = p.ret()
+                    drained = [d for d in p.cdecisions() if d[2][0] == 'discr' and (is_call(d[2][1], "Streamer<'a>>::next") or is_call(d[2][1], '::next'))]
+                    if rv[0] == 'const' and drained and drained[-1][3] == 1:
+                        wrong = 'answers %s as soon as the operation yields a key, without counting' % ('true' if rv[1] else 'false')
+                    if rv[0] == 'const' and not drained:
+                        wrong = 'answers a constant'
+                    if rv[0] == 'bin' and rv[1] in ('Eq', 'Ne', 'Lt', 'Le', 'Gt', 'Ge') and any(s_[0] == 'havoc' for s_ in (rv[2], rv[3])):
+                        if rv[1] != 'Eq' and any(is_call(s_, 'Fst::<D>::len') for s_ in (rv[2], rv[3])):
+                            wrong = 'compares the count with %s using %s' % (fmt(rv[3] if rv[2][0] == 'havoc' else rv[2])[:40], rv[1])
+                if wrong is None:
+                    ctx.undecided(R, name, '%s counts the keys of the %s in a form the rule does not follow' % (name, op), fn=f)
+                    continue
         ctx.check(R, good_op and shape, name, '%s must be decided by %s (found ops %s, shape ok: %s)' % (name, {'is_disjoint': 'the intersection being empty', 'is_subset': 'the size of the intersection equalling own len()', 'is_superset': 'the size of the union equalling own len()'}[name], opcalls, shape), fn=f)
     # set/map wrappers delegate
     for w, inner in (("inner_set::Set::<D>", 'raw::Fst::<D>::'),):
